@@ -10,19 +10,8 @@ def unit(name, pkg, run, shards=(1, 1), timeout=(600, 3000), race=False, tiers=(
 
 CHECKS = {}
 
-CHECKS["C20"] = dict(
-    overlay_dirs={**KIT, "verifx/c20": "harness/x/c20"},
-    units=[unit("c20", "./verifx/c20", "^TestC20", shards=(8, 16))],
-    rule=("Exhaustive: every cluster size n in 1..1,000,000 (each n is one distinct case; f is recomputed by search, "
-          "not by the formula under test) for NumFaulty/QuorumSize: 2q-n>=f+1, q<=n-f, q-1 fails the first; "
-          "RuntimeConfig.QuorumSize for n in 1..200; boundary certificates (QC, TC, AggQC) carrying q-1, q and n distinct "
-          "valid signatures for n in 1..13 and the three schemes, verified by another replica; collector thresholds "
-          "(timeout collector, vote collector, Kauri) are exercised at q-1/q for n in {4,7} by the C08/C09 harness units. "
-          "Every case is non-trivial; distinct = distinct n / distinct (scheme,n,kind,k)."),
-    all_exhaustive=True,
-    assumptions=["Go integer and float64 arithmetic as implemented by the toolchain",
-                 "for n beyond 1,000,000 the three-line algebraic argument in DESIGN.md (prose, not machine-checked)"],
-)
+NOT_APPLICABLE = {}   # property id -> reason, only where the technique genuinely cannot apply
 
-# properties not claimed (reason); filled only where the technique genuinely cannot apply or the check is not built
-NOT_APPLICABLE = {}
+import glob as _glob, os as _os
+for _f in sorted(_glob.glob(_os.path.join(_os.path.dirname(_os.path.abspath(__file__)), "checks.d", "*.py"))):
+    exec(compile(open(_f).read(), _f, "exec"))
